@@ -7,6 +7,7 @@ E1 on the real from_string / to_string / parsehash of every hasher (environment 
      string that parses back to the same settings and re-renders identically;
  (3) libpass inspectors / PHC records: inspect(as_str(info)) == info for symbolic field characters.
 """
+import itertools
 import z3
 from vlib import sym, runner, hashenv
 from vlib.sym import SBool, ZInt, explore, check, valid, Unsupported
@@ -177,12 +178,16 @@ def ob_render_parse(name, nsym):
             rounds_list = [r | 1 for r in rounds_list]
     triples = hashenv.env_triples(H)
     npaths = 0
-    for rounds in rounds_list:
+    # boolean layout switches of the format (sun_md5_crypt's bare-salt form) are part of what must survive
+    flags = [(a, v) for a in ("bare_salt",) if isinstance(getattr(orig, a, None), bool) for v in (False, True)] or [(None, None)]
+    for rounds, (flag, fval) in itertools.product(rounds_list, flags):
         def run():
             sym.assume(cons)
             inst = object.__new__(type(orig))
             inst.__dict__.update(orig.__dict__)
             inst.salt = ssalt
+            if flag:
+                setattr(inst, flag, fval)
             if rounds is not None:
                 inst.rounds = rounds
                 if hasattr(inst, "implicit_rounds"):
@@ -190,6 +195,8 @@ def ob_render_parse(name, nsym):
             text = inst.to_string()
             back = base.from_string(text)
             again = back.to_string()
+            if flag and getattr(back, flag) != fval:
+                raise AssertionError("%s comes back as %r" % (flag, getattr(back, flag)))
             return text, back.salt, getattr(back, "rounds", None), getattr(back, "ident", None), back.checksum, again
         try:
             with patched(*triples):
@@ -204,7 +211,7 @@ def ob_render_parse(name, nsym):
                 r, mdl = check(p.cond())
                 s_ = "".join(chr(mdl.eval(c, True).as_long()) for c in chars) + salt0[k:] if r == "sat" else salt0
                 return violation("%s: salt %r rounds %r: render/parse raises %r" % (name, s_, rounds, p.exc), "roundtrip:%s:render-parse" % base.name,
-                                 {"module": "harness.c07", "func": "replay_render_parse", "args": {"name": name, "salt": s_, "rounds": rounds}})
+                                 {"module": "harness.c07", "func": "replay_render_parse", "args": {"name": name, "salt": s_, "rounds": rounds, "flag": [flag, fval]}})
             text, bsalt, brounds, bident, bchk, again = p.result
             claims = [_eq(bsalt, ssalt), z3.BoolVal(brounds == rounds if rounds is not None else True),
                       z3.BoolVal(bident == getattr(orig, "ident", None)), _eq(bchk, orig.checksum), _eq(again, text)]
@@ -213,14 +220,14 @@ def ob_render_parse(name, nsym):
                 s_ = "".join(chr(mdl.eval(c, True).as_long()) for c in chars) + salt0[k:]
                 return violation("%s: salt %r rounds %r: parsed settings differ from the rendered ones" % (name, s_, rounds),
                                  "roundtrip:%s:render-parse" % base.name,
-                                 {"module": "harness.c07", "func": "replay_render_parse", "args": {"name": name, "salt": s_, "rounds": rounds}})
+                                 {"module": "harness.c07", "func": "replay_render_parse", "args": {"name": name, "salt": s_, "rounds": rounds, "flag": [flag, fval]}})
             if r != "unsat":
                 return inconclusive("solver %s" % r)
     return ok("%s: %d symbolic salt characters x costs %s: from_string(to_string(x)) reports the same salt/cost/ident/digest and "
               "re-renders identically (%d paths)" % (name, k, rounds_list, npaths), paths=npaths)
 
 
-def replay_render_parse(name, salt, rounds):
+def replay_render_parse(name, salt, rounds, flag=None):
     H, tmpls = c08.templates(name)
     base = getattr(H, "wrapped", H)
     unwrap = getattr(H, "_unwrap_hash", lambda x: x)
@@ -231,6 +238,8 @@ def replay_render_parse(name, salt, rounds):
     for a in ("ident", "version", "variant", "block_size", "parallelism", "type", "memory_cost"):
         if hasattr(orig, a) and a in getattr(base, "setting_kwds", ()) or a == "ident" and hasattr(orig, "ident"):
             kw[a] = getattr(orig, a)
+    if flag and flag[0]:
+        kw[flag[0]] = flag[1]
     try:
         inst = base(**kw)
     except (ValueError, TypeError):
@@ -241,7 +250,7 @@ def replay_render_parse(name, salt, rounds):
     except Exception as e:
         return "%s(salt=%r, rounds=%r): to_string/from_string raises %r" % (name, salt, rounds, e)
     if back.salt != inst.salt or getattr(back, "rounds", None) != getattr(inst, "rounds", None) or back.checksum != inst.checksum \
-            or back.to_string() != text:
+            or back.to_string() != text or (flag and flag[0] and getattr(back, flag[0]) != flag[1]):
         return "%s: %r parses back as salt=%r rounds=%r" % (name, text, back.salt, getattr(back, "rounds", None))
     return False
 
@@ -350,6 +359,143 @@ def replay_libpass(which):
     return False
 
 
+# ------------------------------------------------------------------ libpass PHC records
+def phc_templates():
+    import libpass.inspect.phc.defs as D
+    a = D.Argon2PHC(id="argon2id", salt="c2FsdHNhbHRzYWx0", hash="aGFzaGhhc2hoYXNoaGFzaA", memory_cost=65536, time_cost=3, parallelism_cost=4)
+    b = D.BcryptSHA256PHCV2(id="bcrypt-sha256", salt="n79VH.0Q2TMWmt3Oqt9uku", hash="Kq4Noyk3094Y2QlB8NdRT8SvGiI4ft2", version_=2, type="2b", rounds=12)
+    out = {"argon2id": a.as_str(), "argon2i": dataclasses_replace(a, id="argon2i").as_str(), "bcrypt-sha256": b.as_str()}
+    # optional / foreign parts: no version field, a version field on the version-less format
+    out["argon2id-noversion"] = out["argon2id"].replace("$v=19", "")
+    out["bcrypt-sha256-versioned"] = out["bcrypt-sha256"].replace("$bcrypt-sha256$", "$bcrypt-sha256$v=2$")
+    return out
+
+
+def dataclasses_replace(obj, **kw):
+    import dataclasses
+    return dataclasses.replace(obj, **kw)
+
+
+def _phc_env():
+    import libpass.inspect.phc._phc as M
+    from vlib.sregex import regex_triples
+    from vlib.instrument import instrument
+    from vlib.sym import int_
+    from vlib.sbytes import str_
+    real_def = M._parse_phc_def
+
+    def pdef(d):
+        info = real_def(d)
+        return M._PHCDefinitionInfo(id=info.id, parameters=dict(
+            (k, M.ParsedParameter(param=v.param, type={int: int_, str: str_}.get(v.type, v.type))) for k, v in info.parameters.items()))
+    newf, _ = instrument(M.PHC.as_str, opts=("fstr", "join", "fmt"))
+    return regex_triples(M) + [(M, "int", int_), (M, "_parse_phc_def", pdef), (M.PHC, "as_str", newf)]
+
+
+def ob_phc(tname, positions):
+    """every string obtained from a PHC record by putting an arbitrary character at one position: if the inspector accepts it,
+    rendering the record gives the string back"""
+    import libpass.inspect.phc._phc as M
+    import libpass.inspect.phc.defs as D
+    t = phc_templates()[tname]
+    defs = (D.Argon2PHC, D.BcryptSHA256PHCV2)
+    tr = _phc_env()
+    npaths = 0
+    for pos in positions:
+        if pos >= len(t):
+            continue
+        c = z3.BitVec("c", 21)
+        text = SStr(list(t[:pos]) + [c] + list(t[pos + 1:]))
+        # canonical numbers only (the PHC format has no leading zeros or signs): a mutated first digit is not '0', '+' or '-'
+        first_digit = t[pos].isdigit() and not t[pos - 1].isdigit() and pos + 1 < len(t) and t[pos + 1].isdigit()
+        num_start = t[pos].isdigit() and not t[pos - 1].isdigit()
+
+        def run():
+            sym.assume(z3.And(z3.ULE(c, 0x10FFFF), z3.Or(z3.ULT(c, 0xD800), z3.UGT(c, 0xDFFF))))
+            if first_digit:
+                sym.assume(c != ord("0"))
+            if num_start:
+                sym.assume(z3.And(c != ord("+"), c != ord("-")))
+            r = M.inspect_phc(text, defs)
+            if r is None:
+                return None
+            return r.as_str()
+        try:
+            with patched(*tr):
+                paths = explore(run, max_paths=600)
+        except Unsupported as e:
+            return inconclusive("Unsupported: %s" % e)
+        npaths += len(paths)
+        for p in paths:
+            if p.exc is not None:
+                if isinstance(p.exc, (ValueError, KeyError, TypeError)):
+                    continue            # refusal by exception: the subject of C08
+                if isinstance(p.exc, Unsupported):
+                    return inconclusive("Unsupported: %s" % p.exc)
+                r, mdl = check(p.cond())
+                if r == "sat":
+                    ch = mdl.eval(c, True).as_long()
+                    return _pviol(tname, t, pos, ch, "raises %r" % (p.exc,))
+                continue
+            if p.result is None:
+                continue
+            block = []
+            for _ in range(8):
+                r, mdl = valid(_eq(p.result, text), p.cond(), *block)
+                if r != "sat":
+                    break
+                ch = mdl.eval(c, True).as_long()
+                if _phc_redundant(t[:pos] + chr(ch) + t[pos + 1:]):
+                    # repeated or unknown parameters are not well-formed PHC; the inspector ignores them (leniency, not a
+                    # round-trip matter): look for another counterexample
+                    block.append(c != ch)
+                    continue
+                return _pviol(tname, t, pos, ch, "accepted, but the record renders as %r" %
+                              (p.result if isinstance(p.result, str) else "".join(x if isinstance(x, str) else chr(mdl.eval(x, True).as_long()) for x in p.result.c)))
+            if r not in ("unsat", "sat"):
+                return inconclusive("solver %s" % r)
+    # the unmodified template itself
+    back = M.inspect_phc(t, defs)
+    if back is not None and back.as_str() != t:
+        return _pviol(tname, t, 0, ord(t[0]), "accepted, but the record renders as %r" % back.as_str())
+    return ok("PHC %s: any code point at positions %s..%s: accepted strings render back identically (%d paths)" %
+              (tname, positions[0], positions[-1], npaths), paths=npaths)
+
+
+def _phc_redundant(text):
+    import libpass.inspect.phc._phc as M
+    import libpass.inspect.phc.defs as D
+    m = M.PHC_REGEX.fullmatch(text)
+    if not m:
+        return False
+    names = [kv.split("=")[0] for kv in m.group("params").split(",")]
+    known = set()
+    for d in (D.Argon2PHC, D.BcryptSHA256PHCV2):
+        if m.group("id") in M._parse_phc_def(d).id:
+            known = set(v.param.name for v in M._parse_phc_def(d).parameters.values())
+    return len(set(names)) != len(names) or any(n not in known for n in names)
+
+
+def _pviol(tname, t, pos, ch, what):
+    text = t[:pos] + chr(ch) + t[pos + 1:]
+    return violation("libpass inspect_phc: %r (U+%04X at %d): %s" % (text, ch, pos, what), "libpass:phc:%s" % tname,
+                     {"module": "harness.c07", "func": "replay_phc", "args": {"text": text}})
+
+
+def replay_phc(text):
+    import libpass.inspect.phc._phc as M
+    import libpass.inspect.phc.defs as D
+    try:
+        r = M.inspect_phc(text, (D.Argon2PHC, D.BcryptSHA256PHCV2))
+    except (ValueError, KeyError, TypeError):
+        return False
+    except Exception as e:
+        return "inspect_phc(%r) raises %r" % (text, e)
+    if r is not None and r.as_str() != text:
+        return "inspect_phc(%r) is accepted and renders as %r" % (text, r.as_str())
+    return False
+
+
 def run(tier, seed, t0, only=None):
     import sys
     sys.path.insert(0, runner.REPO)
@@ -375,6 +521,11 @@ def run(tier, seed, t0, only=None):
         obs.append(Ob("render-parse[%s]" % n, ob_render_parse, {"name": n, "nsym": 3 if tier == "quick" else 4}, timeout=1800))
     for w in ("sha256", "sha512", "bcrypt", "pbkdf2"):
         obs.append(Ob("libpass-inspect[%s]" % w, ob_libpass_inspect, {"which": w}, timeout=900))
+    for tname, t in sorted(phc_templates().items()):
+        step = 12
+        for a in range(0, len(t), step):
+            obs.append(Ob("phc[%s,%d-%d]" % (tname, a, min(a + step, len(t)) - 1), ob_phc,
+                          {"tname": tname, "positions": list(range(a, min(a + step, len(t))))}, timeout=1200))
     if only:
         obs = [o for o in obs if only in o.name]
     results = runner.run_obligations(obs)
